@@ -34,7 +34,14 @@ func VerifNewAdminClient(zkc zk.Client, options ...Option) AdminClient {
 }
 
 // VerifCloseAdmin closes an admin client (AdminClient has no Close method).
-func VerifCloseAdmin(ac AdminClient) { ac.(*client).Close() }
+func VerifCloseAdmin(ac AdminClient) {
+	// newAdminClient leaves the done channel nil and AdminClient exposes no
+	// Close, so only the connection to the master is closed here
+	c := ac.(*client)
+	if rc := c.adminRegionInfo.Client(); rc != nil {
+		rc.Close()
+	}
+}
 
 // VerifRegion is a read-only view of one cached region (H2).
 type VerifRegion struct {
